@@ -77,3 +77,42 @@ def microsteps(toks):
                 out.append(cur)
                 cur = None
     return out
+
+
+def spec_line(tree, late, events):
+    return 'spec %d %d %s (%s)' % (1 if late else 0, FUEL, G.sx_tree(tree), ' '.join(G.hx(e) for e in events))
+
+
+KEEP = ('EV:', 'MS{', '}MS', 'X{:', '}X:', 'T{:', '}T:', 'E{:', '}E:', 'C{:', '}C:', 'LOG:', 'COMPL{', '}COMPL')
+
+
+def spec_view(toks, from_impl):
+    """projection of a trace onto what Appendix D determines: events consumed, the microstep brackets with
+    exits, transition content, entries, executed content and log output in order, the configuration after
+    every microstep, the completion bracket.  The <scxml> root (sid 0) is no state of the Recommendation's
+    configuration: its entry and its membership are dropped (C02 checks the root separately)."""
+    out = []
+    want_cfg = False
+    for t in toks:
+        if t.startswith('CFG:'):
+            if want_cfg or not from_impl:
+                ids = [x for x in t[4:].split(',') if x not in ('', '0')]
+                out.append('CFG:' + ','.join(ids))
+            want_cfg = False
+            continue
+        if t in ('E{:0', '}E:0'):
+            continue
+        if t.startswith(KEEP):
+            out.append(t)
+            if t == '}MS':
+                want_cfg = True
+    return out
+
+
+def complete_prefix(toks):
+    """cut a projected trace after its last complete microstep/configuration pair (used when a run hit the step bound)"""
+    last = 0
+    for i, t in enumerate(toks):
+        if t.startswith('CFG:'):
+            last = i + 1
+    return toks[:last]
